@@ -18,8 +18,9 @@ QAddrs == {None, 0, 327680, 2147418112}
 TAddrs == {None, 0, 1, 327680, 65535, 2147418112}
 
 PTypes == <<TNm("u32"), TCPtr(TNm("u8")), TNm("i64"), TMPtr(TNm("T")), TNm("u8"), TNm("f32")>>
-(* the second parameter is named like the function itself (`f`), the fourth like the receiver of the emitted closure *)
-PNames == <<"a", "f", "c", "this", "e", "g">>
+(* the second parameter is named like the function itself and like the local of the emitted wrapper (`f`, written raw), *)
+(* the fourth like the receiver of the emitted closure                                                                 *)
+PNames == <<"a", "r#f", "c", "this", "e", "g">>
 Missing == TCPtr(TNm("Missing"))
 
 Params(n, bad) == [i \in 1..n |-> Arg(PNames[i], IF bad = i THEN Missing ELSE PTypes[i])]
@@ -50,9 +51,14 @@ MkInput(ptr, recv, n, bad, ret, addr, second, single, ek, eaddr) ==
               [] second = "blockaddr" -> <<F("h", "mut", 1, 0, "none", None)>>
               (* an address attribute with two arguments is no address *)
               [] second = "twoaddr" -> <<[F("h", "mut", 1, 0, "none", None) EXCEPT !.xattrs = <<"address(0x401000, 0x4010F0)">>]>>
+              (* the second function in an impl block of its own / in a block for the enum / for a name nothing defines *)
+              [] second \in {"twoblocks", "implenum", "implmissing", "implenumbad"} -> <<F("h", "mut", 1, 0, "none", 393216)>>
               [] OTHER -> <<>>
+      blockOf2 == CASE second = "twoblocks" -> "T" [] second \in {"implenum", "implenumbad"} -> "E" [] second = "implmissing" -> "Nope" [] OTHER -> ""
+      f2b == IF second = "implenumbad" THEN <<F("h", "mut", 1, 0, "none", None)>> ELSE f2   \* ... and without an address
       impls == (IF useBase THEN <<Impl("B", <<F("tick", "mut", 1, 0, "none", 458752)>>)>> ELSE <<>>)
-               \o <<[Impl("T", <<f1>> \o f2) EXCEPT !.battrs = IF second = "blockaddr" THEN <<"address(0x70000)">> ELSE <<>>]>>
+               \o (IF blockOf2 # "" THEN <<Impl("T", <<f1>>), Impl(blockOf2, f2b)>>
+                   ELSE <<[Impl("T", <<f1>> \o f2) EXCEPT !.battrs = IF second = "blockaddr" THEN <<"address(0x70000)">> ELSE <<>>]>>)
       evals == IF ek = "none" THEN <<>>
                ELSE IF ek = "two" THEN <<ExtVal("gv", "pub", TNm("u32"), 4096), ExtVal("hv", "pub", TMPtr(TNm("u16")), eaddr)>>
                (* the address stated twice: like every integer attribute, the last statement counts *)
@@ -88,7 +94,10 @@ M == input.mods[Len(input.mods)]     \* the module `m` is the last one
 G == input.mods[1]
 HasGlobals == Len(input.mods) = 2
 
-ImplFuncsAll == LET i == FirstIdx(M.impls, LAMBDA b : b.name = "T") IN M.impls[i].funcs
+(* every function declared for T, whichever impl block states it *)
+ImplFuncsAll == LET mine == SelectSeq(M.impls, LAMBDA b : b.name = "T") IN Flatten([k \in DOMAIN mine |-> mine[k].funcs])
+(* functions attached to something that is not a type of the module have nowhere to go: the description is in error *)
+OrphanImpl == \E i \in DOMAIN M.impls : ~\E j \in DOMAIN M.defs : M.defs[j].name = M.impls[i].name /\ M.defs[j].k = "type"
 
 FnBad(f) ==
   \/ ~IsSome(f.addr)
@@ -97,7 +106,7 @@ FnBad(f) ==
 
 EvalBad == \E i \in DOMAIN M.evals : ~IsSome(M.evals[i].addr) \/ DTy(input, M, M.evals[i].ty) = TNone
 
-MustReject == (\E i \in DOMAIN ImplFuncsAll : FnBad(ImplFuncsAll[i])) \/ EvalBad
+MustReject == (\E i \in DOMAIN ImplFuncsAll : FnBad(ImplFuncsAll[i])) \/ EvalBad \/ OrphanImpl
 
 (* C05 on the emitted methods of T: every declared function has exactly one wrapper, bound *)
 (* to its address, with the declared parameters in order and the declared return type       *)
@@ -131,7 +140,7 @@ P_C15(crate) ==
           /\ file.evals[i].name = M.evals[i].name /\ file.evals[i].addr = M.evals[i].addr
           /\ file.evals[i].ty = DTy(input, M, M.evals[i].ty) /\ file.evals[i].vis = M.evals[i].vis
 
-Inv_C05 == Terminal => ((\E i \in DOMAIN ImplFuncsAll : FnBad(ImplFuncsAll[i])) => Rejected) /\ (Accepted => P_C05(Crate))
+Inv_C05 == Terminal => (((\E i \in DOMAIN ImplFuncsAll : FnBad(ImplFuncsAll[i])) \/ OrphanImpl) => Rejected) /\ (Accepted => P_C05(Crate))
 Inv_C15 == Terminal => (EvalBad => Rejected) /\ (Accepted => P_C15(Crate))
 
 PViol == (IF Inv_C05 THEN {} ELSE {"C05"}) \cup (IF Inv_C15 THEN {} ELSE {"C15"})
@@ -149,7 +158,7 @@ FnOracle(f) ==
 ReplayRecord ==
   [group |-> "impl", input |-> input, order |-> added, sched |-> hist,
    accepted |-> Accepted, err |-> err, pviol |-> IF Terminal THEN PViol ELSE {},
-   oracle |-> [mustReject |-> MustReject, fnBad |-> \E i \in DOMAIN ImplFuncsAll : FnBad(ImplFuncsAll[i]), evalBad |-> EvalBad,
+   oracle |-> [mustReject |-> MustReject, fnBad |-> (\E i \in DOMAIN ImplFuncsAll : FnBad(ImplFuncsAll[i])) \/ OrphanImpl, evalBad |-> EvalBad,
                funcs |-> [i \in DOMAIN ImplFuncsAll |-> FnOracle(ImplFuncsAll[i])],
                evals |-> [i \in DOMAIN M.evals |-> [name |-> M.evals[i].name, addr |-> M.evals[i].addr, vis |-> M.evals[i].vis,
                                                      ty |-> DTy(input, M, M.evals[i].ty)]],
